@@ -295,6 +295,20 @@ class FnExec:
                     return Val(a.t, a.t.make(a.t.len(a.z), a.t.arr(a.z), kind=z3.BoolVal(nm == "tuple"))) if a.t.tagged else a
                 raise Unsupported(f"{nm}() of {a.t!r}")
             if nm == "iter" and len(n.args) == 1: return self.expr(n.args[0], st, pc)
+            if nm in ("min", "max") and len(n.args) == 2 and not n.keywords:
+                a, b = self.expr(n.args[0], st, pc), self.expr(n.args[1], st, pc)
+                if isinstance(a.t, (IntT, RealT)) and isinstance(b.t, (IntT, RealT)):
+                    real = isinstance(a.t, RealT) or isinstance(b.t, RealT); az, bz = (to_real(a), to_real(b)) if real else (a.z, b.z)
+                    return Val(REAL if real else INT, z3.If((az <= bz) if nm == "min" else (az >= bz), az, bz))
+            if nm == "abs" and len(n.args) == 1:
+                a = self.expr(n.args[0], st, pc)
+                if isinstance(a.t, (IntT, RealT)): return Val(a.t, z3.If(a.z >= 0, a.z, -a.z))
+            if nm == "float" and len(n.args) == 1:
+                a = self.expr(n.args[0], st, pc)
+                if isinstance(a.t, (IntT, RealT)): return Val(REAL, to_real(a))
+            if nm == "int" and len(n.args) == 1:
+                a = self.expr(n.args[0], st, pc)
+                if isinstance(a.t, IntT): return a
             if nm == "set" and len(n.args) == 1 and isinstance(n.args[0], ast.List):
                 return self.e_Set(ast.Set(elts=n.args[0].elts), st, pc)
             if nm == "range" and len(n.args) in (1, 2):
@@ -656,8 +670,15 @@ class FnExec:
             def bind(state, g): self.assign(s.target, Val(INT, g["IT"]), state, [])
         elif isinstance(it, ast.Call) and isinstance(it.func, ast.Name) and it.func.id == "enumerate":
             root, steps = self.path_of(it.args[0], st, pc); seq = self.read_path(st, root, steps)
-            lo, hi = z3.IntVal(0), seq.t.len(seq.z)
-            def bind(state, g):
+            if isinstance(seq.t, DictT):
+                ks = self.keyseq(seq, pc); st.env["KEYS"] = ks          # enumerate(d): the keys in the dict's (unspecified) iteration order
+                lo, hi = z3.IntVal(0), ks.t.len(ks.z)
+                def bind(state, g):
+                    self.assign(s.target.elts[0], Val(INT, g["IT"]), state, [])
+                    self.assign(s.target.elts[1], Val(ks.t.elem, ks.t.at(ks.z, g["IT"])), state, [])
+            else:
+              lo, hi = z3.IntVal(0), seq.t.len(seq.z)
+              def bind(state, g):
                 self.assign(s.target.elts[0], Val(INT, g["IT"]), state, [])
                 self.bind_item(state, s.target.elts[1], root, steps, seq, g["IT"])
         elif isinstance(it, ast.Call) and isinstance(it.func, ast.Name) and it.func.id == "zip":
